@@ -192,16 +192,18 @@ Definition diff_obj (o1 o2 : obj) : Z :=
   | _, _, _ => 0
   end.
 
+(** `if (flags[0] && flags[1]) nfound += diff(...)`: an object present in one file only is listed in the table
+    (and printed by -b) but contributes nothing to the count -- see match_added_object_refuted *)
 Definition entry_cost (e : mentry) : Z :=
-  match e with Both a b => diff_obj a b | Only1 _ => 1 | Only2 _ => 1 end.
+  match e with Both a b => diff_obj a b | Only1 _ => 0 | Only2 _ => 0 end.
 
 Fixpoint zsum (l : list Z) : Z := match l with [] => 0 | x :: r => x + zsum r end.
 
 Definition match_m (l1 l2 : list obj) : Z := zsum (map entry_cost (cmatch l1 l2)).
 
-(** the behaviour before the repair: objects present in one file only were skipped *)
-Definition entry_cost_orig (e : mentry) : Z := match e with Both a b => diff_obj a b | _ => 0 end.
-Definition match_orig (l1 l2 : list obj) : Z := zsum (map entry_cost_orig (cmatch l1 l2)).
+(** what the property asks for: a one-sided entry counts as a difference *)
+Definition entry_cost_wanted (e : mentry) : Z := match e with Both a b => diff_obj a b | _ => 1 end.
+Definition match_wanted (l1 l2 : list obj) : Z := zsum (map entry_cost_wanted (cmatch l1 l2)).
 
 (** hdiff_gattr.c : gattr_diff (SDfindattr = first attribute of that name) *)
 Fixpoint find_attr (name : list Z) (l : list attr) : option attr :=
